@@ -18,7 +18,7 @@ ASSUMPTIONS = ['float results may exceed a bound by 1e-9 * max(1, |min|, |max|) 
 MIN_OBS = {'decodes': 50000, 'declarations': 200, 'monotone_pairs': 50000, 'hp_sessions': 30, 'hp_observations': 500,
            'declarations_with_zero_default': 4, 'decodes_with_repeated_letters': 2000,
            'session_dnas_with_repeated_letters': 1, 'hp_sessions_reusing_argument_objects': 10,
-           'hp_sessions_with_report_options': 4}
+           'hp_sessions_with_report_options': 4, 'fast_sessions_with_one_minute_chunks': 2}
 EXHAUSTIVE_NOTE = 'Part 1 enumerates every letter of the alphabet at every gene position for every generated declaration'
 ALPHABET = r'()*+,-./0123456789:;<=>?@ABCDEFGHIJKLMNOPQRSTUVWXYZ[\]^_`abcdefghijklmnopqrstuvw'
 
@@ -166,6 +166,10 @@ def _part2(job):
             if any(h['default'] == 0 for h in decl):
                 cnt['declarations_with_zero_default'] = cnt.get('declarations_with_zero_default', 0) + 1
         dna = ''.join(rng.choice(ALPHABET) for _ in decl) if (has_dna and decl) else ''
+        # trading timeframes of every kind (the fast simulator's chunk is their gcd: 1 minute with a 1m route or 3m next to 5m)
+        tf_ = rng.choice(['5m', '1m', '3m', '5m', '15m'])
+        if job['fast'] and tf_ in ('1m', '3m'):
+            cnt['fast_sessions_with_one_minute_chunks'] = 1 if (tf_ == '1m' or nroutes == 2) else cnt.get('fast_sessions_with_one_minute_chunks', 0)
         if dna and len(dna) > 1 and rng.random() < 0.85:
             # the same letter in several positions: every gene still belongs to its own declaration
             k = rng.randrange(1, len(dna))
@@ -175,9 +179,9 @@ def _part2(job):
         if dna and rng.random() < 0.4:
             # the strategy picks its DNA by route: this route's own string, a different one for anything else
             other = ''.join(rng.choice([c for c in ALPHABET if c != dna[0]]) for _ in decl)
-            script['dna_by_route'] = {f'{sym}|5m': dna, 'default': other}
+            script['dna_by_route'] = {f'{sym}|{tf_}': dna, 'default': other}
             cnt['dna_chosen_by_route'] = cnt.get('dna_chosen_by_route', 0) + 1
-        routes.append({'symbol': sym, 'timeframe': '5m', 'script': script})
+        routes.append({'symbol': sym, 'timeframe': tf_, 'script': script})
         real_decl = [dict(h, type=int if h['type'] == 'int' else float) for h in decl]
         if explicit is not None:
             expect[sym] = explicit_snapshot
